@@ -36,9 +36,34 @@ pub enum At {
     NotBacktrace,
     Ignore,
     BtSource,
+    /// `source, backtrace` (the documented pair in the other order)
+    SourceBt,
+    /// `source, not(backtrace)`
+    SourceNotBt,
+    /// `not(source), backtrace`
+    NotSourceBt,
+    /// `not(source), not(backtrace)`
+    NotSourceNotBt,
+    /// `not(source, backtrace)`
+    NotBoth,
 }
 
-pub const ALL_ATTRS: [At; 7] = [At::None, At::Source, At::NotSource, At::Backtrace, At::NotBacktrace, At::Ignore, At::BtSource];
+/// the single-parameter attributes and the documented `backtrace, source`
+pub const BASE_ATTRS: [At; 7] = [At::None, At::Source, At::NotSource, At::Backtrace, At::NotBacktrace, At::Ignore, At::BtSource];
+pub const ALL_ATTRS: [At; 12] = [
+    At::None,
+    At::Source,
+    At::NotSource,
+    At::Backtrace,
+    At::NotBacktrace,
+    At::Ignore,
+    At::BtSource,
+    At::SourceBt,
+    At::SourceNotBt,
+    At::NotSourceBt,
+    At::NotSourceNotBt,
+    At::NotBoth,
+];
 
 impl At {
     pub fn text(self) -> Option<&'static str> {
@@ -50,7 +75,36 @@ impl At {
             At::NotBacktrace => Some("not(backtrace)"),
             At::Ignore => Some("ignore"),
             At::BtSource => Some("backtrace, source"),
+            At::SourceBt => Some("source, backtrace"),
+            At::SourceNotBt => Some("source, not(backtrace)"),
+            At::NotSourceBt => Some("not(source), backtrace"),
+            At::NotSourceNotBt => Some("not(source), not(backtrace)"),
+            At::NotBoth => Some("not(source, backtrace)"),
         }
+    }
+    /// what the attribute says about `source`: `Some(true)` marked, `Some(false)` negated, `None` silent
+    pub fn src(self) -> Option<bool> {
+        match self {
+            At::Source | At::BtSource | At::SourceBt | At::SourceNotBt => Some(true),
+            At::NotSource | At::NotSourceBt | At::NotSourceNotBt | At::NotBoth => Some(false),
+            At::None | At::Backtrace | At::NotBacktrace | At::Ignore => None,
+        }
+    }
+    /// what the attribute says about `backtrace`
+    pub fn bt(self) -> Option<bool> {
+        match self {
+            At::Backtrace | At::BtSource | At::SourceBt | At::NotSourceBt => Some(true),
+            At::NotBacktrace | At::SourceNotBt | At::NotSourceNotBt | At::NotBoth => Some(false),
+            At::None | At::Source | At::NotSource | At::Ignore => None,
+        }
+    }
+    /// more than one parameter in the attribute's list
+    pub fn is_combo(self) -> bool {
+        matches!(self, At::BtSource | At::SourceBt | At::SourceNotBt | At::NotSourceBt | At::NotSourceNotBt | At::NotBoth)
+    }
+    /// disqualified as source: `not(source)` in any spelling, or `ignore`
+    fn no_src(self) -> bool {
+        self.src() == Some(false) || self == At::Ignore
     }
     fn label(self) -> &'static str {
         match self {
@@ -61,6 +115,11 @@ impl At {
             At::NotBacktrace => "not_backtrace",
             At::Ignore => "ignore",
             At::BtSource => "backtrace_source",
+            At::SourceBt => "source_backtrace",
+            At::SourceNotBt => "source_not_backtrace",
+            At::NotSourceBt => "not_source_backtrace",
+            At::NotSourceNotBt => "not_source_not_backtrace",
+            At::NotBoth => "not_both_one_list",
         }
     }
 }
@@ -72,6 +131,9 @@ pub enum Cls {
     Err,
     Bt,
     Plain,
+    /// a type that merely *contains* or *resembles* `Backtrace` (`Option<Backtrace>`, `Box<Backtrace>`,
+    /// `MyBacktrace`): not "called `Backtrace`", so neither a backtrace nor (not being an error) a source
+    NearBt,
 }
 
 #[derive(Clone, Debug)]
@@ -113,10 +175,10 @@ pub struct Model {
 pub fn model(l: &Layout) -> Model {
     let f = &l.fields;
     let n = f.len();
-    let explicit_src: Vec<usize> = (0..n).filter(|&i| matches!(f[i].attr, At::Source | At::BtSource)).collect();
-    let explicit_bt: Vec<usize> = (0..n).filter(|&i| matches!(f[i].attr, At::Backtrace | At::BtSource)).collect();
+    let explicit_src: Vec<usize> = (0..n).filter(|&i| f[i].attr.src() == Some(true)).collect();
+    let explicit_bt: Vec<usize> = (0..n).filter(|&i| f[i].attr.bt() == Some(true)).collect();
     let inferred_bt: Vec<usize> = (0..n)
-        .filter(|&i| !matches!(f[i].attr, At::NotBacktrace | At::Ignore))
+        .filter(|&i| f[i].attr.bt().is_none() && f[i].attr != At::Ignore)
         .filter(|&i| if l.named { f[i].name == "backtrace" } else { f[i].cls == Cls::Bt })
         .collect();
     let (mut backtrace, bt_ambiguous) = match explicit_bt.len() {
@@ -137,39 +199,45 @@ pub fn model(l: &Layout) -> Model {
     } else if l.named {
         match f.iter().position(|x| x.name == "source") {
             None => Sel::NoSource,
-            Some(c) => match f[c].attr {
-                At::NotSource | At::Ignore => Sel::NoSource,
-                _ => Sel::Field(c),
-            },
+            Some(c) => {
+                if f[c].attr.no_src() {
+                    Sel::NoSource
+                } else {
+                    Sel::Field(c)
+                }
+            }
         }
     } else {
         match n {
             0 => Sel::NoSource,
             1 => {
                 let x = &f[0];
-                match x.attr {
-                    At::NotSource | At::Ignore => Sel::NoSource,
-                    // the sole field is explicitly the backtrace: "backtrace taken from the source" is only
-                    // documented for a field that is the source by another rule
-                    At::Backtrace => {
-                        if x.cls == Cls::Bt {
-                            Sel::NoSource
-                        } else {
-                            Sel::Unspecified
+                if x.attr.no_src() {
+                    Sel::NoSource
+                } else {
+                    match x.attr.bt() {
+                        // the sole field is explicitly the backtrace: "backtrace taken from the source" is only
+                        // documented for a field that is the source by another rule
+                        Some(true) => {
+                            if x.cls == Cls::Bt {
+                                Sel::NoSource
+                            } else {
+                                Sel::Unspecified
+                            }
                         }
-                    }
-                    At::NotBacktrace => {
-                        if x.cls == Cls::Bt {
-                            Sel::Unspecified
-                        } else {
-                            Sel::Field(0)
+                        Some(false) => {
+                            if x.cls == Cls::Bt {
+                                Sel::Unspecified
+                            } else {
+                                Sel::Field(0)
+                            }
                         }
-                    }
-                    _ => {
-                        if x.cls == Cls::Bt {
-                            Sel::NoSource
-                        } else {
-                            Sel::Field(0)
+                        None => {
+                            if x.cls == Cls::Bt {
+                                Sel::NoSource
+                            } else {
+                                Sel::Field(0)
+                            }
                         }
                     }
                 }
@@ -183,9 +251,10 @@ pub fn model(l: &Layout) -> Model {
                     match backtrace {
                         Some(b) => {
                             let o = 1 - b;
-                            match f[o].attr {
-                                At::NotSource | At::Ignore => Sel::NoSource,
-                                _ => Sel::Field(o),
+                            if f[o].attr.no_src() {
+                                Sel::NoSource
+                            } else {
+                                Sel::Field(o)
                             }
                         }
                         None => Sel::NoSource,
@@ -206,8 +275,7 @@ fn bt_candidates(l: &Layout) -> usize {
     l.fields
         .iter()
         .filter(|x| {
-            matches!(x.attr, At::Backtrace | At::BtSource)
-                || (!matches!(x.attr, At::NotBacktrace | At::Ignore) && (x.name == "backtrace" || x.cls == Cls::Bt))
+            x.attr.bt() == Some(true) || (x.attr.bt().is_none() && x.attr != At::Ignore && (x.name == "backtrace" || x.cls == Cls::Bt))
         })
         .count()
 }
@@ -226,7 +294,15 @@ fn valid(l: &Layout, m: &Model, allow_bt: bool) -> bool {
         return false;
     }
     if cands == 1 && m.backtrace.is_none() && !l.ignored {
-        // e.g. a named field `x: Backtrace`: the implementation infers it, the documentation does not say so
+        // e.g. a named field `x: Backtrace`: the implementation infers it as the backtrace, the documentation does not
+        // say so. Which field `source()` returns is decided by rule 1/3 all the same, so the layout is generated where
+        // a `provide()` may be emitted (nightly shard) and only its source is judged.
+        if !(allow_bt && bt_by_type_only(l)) {
+            return false;
+        }
+    }
+    // a near-miss type is neither an error nor a `Backtrace`: it must not be what a rule takes for the backtrace
+    if l.fields.iter().any(|x| x.cls == Cls::NearBt && (x.name == "backtrace" || x.attr.bt() == Some(true))) {
         return false;
     }
     match m.source {
@@ -240,7 +316,7 @@ fn valid(l: &Layout, m: &Model, allow_bt: bool) -> bool {
             if l.named || l.fields.len() != 2 {
                 return false;
             }
-            if l.fields.iter().any(|x| x.cls == Cls::Plain || matches!(x.attr, At::Backtrace | At::BtSource)) {
+            if l.fields.iter().any(|x| matches!(x.cls, Cls::Plain | Cls::NearBt) || x.attr.bt() == Some(true)) {
                 return false;
             }
             if l.fields.iter().filter(|x| x.cls == Cls::Bt).count() != 1 {
@@ -257,6 +333,21 @@ fn valid(l: &Layout, m: &Model, allow_bt: bool) -> bool {
     true
 }
 
+/// A named layout whose only backtrace candidate is a field *typed* `Backtrace` under another name and without a
+/// backtrace attribute.
+fn bt_by_type_only(l: &Layout) -> bool {
+    l.named
+        && !l.ignored
+        && bt_candidates(l) == 1
+        && model(l).backtrace.is_none()
+        && l.fields.iter().any(|x| x.cls == Cls::Bt && x.name != "backtrace" && x.attr.bt().is_none() && x.attr != At::Ignore)
+}
+
+/// Does the derive (have to) emit `provide()` for the layout?
+fn emits_provide(l: &Layout) -> bool {
+    !l.ignored && (model(l).backtrace.is_some() || bt_by_type_only(l))
+}
+
 /// The recorded defect (selected index is a position among *enabled* fields but is used as a position
 /// among *all* fields): position the defect makes an enum variant bind / a bound refer to.
 fn shifted(l: &Layout, i: usize) -> usize {
@@ -269,7 +360,7 @@ fn predicts_panic(l: &Layout) -> bool {
         return false;
     }
     let f = &l.fields;
-    if f.iter().any(|x| matches!(x.attr, At::Source | At::BtSource)) {
+    if f.iter().any(|x| x.attr.src() == Some(true)) {
         return false;
     }
     let ign: Vec<usize> = (0..2).filter(|&i| f[i].attr == At::Ignore).collect();
@@ -277,7 +368,7 @@ fn predicts_panic(l: &Layout) -> bool {
         return false;
     }
     let o = &f[1 - ign[0]];
-    o.attr == At::Backtrace || (o.cls == Cls::Bt && !matches!(o.attr, At::NotBacktrace))
+    o.attr.bt() == Some(true) || (o.cls == Cls::Bt && o.attr.bt() != Some(false))
 }
 
 // ------------------------------------------------------------------------------------------------
@@ -305,9 +396,23 @@ fn draw_layout_raw(d: &mut Dice, allow_bt: bool) -> Layout {
         } else {
             String::new()
         };
-        let attr = [At::None, At::Ignore, At::Source, At::NotSource, At::NotBacktrace, At::Backtrace, At::BtSource]
-            [d.weighted(&[7, 4, 3, 2, 1, if allow_bt { 2 } else { 0 }, if allow_bt { 1 } else { 0 }])];
-        let cls = [Cls::Err, Cls::Plain, Cls::Bt][d.weighted(&[7, 3, if allow_bt { 3 } else { 1 }])];
+        let b2 = if allow_bt { 2 } else { 0 };
+        let b1 = if allow_bt { 1 } else { 0 };
+        let attr = [
+            At::None,
+            At::Ignore,
+            At::Source,
+            At::NotSource,
+            At::NotBacktrace,
+            At::Backtrace,
+            At::BtSource,
+            At::SourceNotBt,
+            At::NotSourceNotBt,
+            At::NotBoth,
+            At::SourceBt,
+            At::NotSourceBt,
+        ][d.weighted(&[28, 16, 12, 8, 4, 4 * b2, 4 * b1, 3, 2, 2, 3 * b1, 3 * b1])];
+        let cls = [Cls::Err, Cls::Plain, Cls::Bt, Cls::NearBt][d.weighted(&[14, 6, if allow_bt { 6 } else { 2 }, if allow_bt { 1 } else { 2 }])];
         fields.push(Fl { name, attr, cls });
     }
     let ignored = d.chance(7);
@@ -339,14 +444,16 @@ fn repair(l: &mut Layout) {
     }
 }
 
-fn has_backtrace(l: &Layout) -> bool {
-    !l.ignored && model(l).backtrace.is_some()
-}
-
 /// Draws a layout of the positive domain. `want_bt`: the layout must have a backtrace (nightly shard).
 fn draw_layout(d: &mut Dice, allow_bt: bool, want_bt: bool, is_enum: bool, excluded: &mut u64) -> Layout {
     for _ in 0..12 {
-        let mut l = if d.chance(13) { steer_ignore_before(d, allow_bt) } else { draw_layout_raw(d, allow_bt) };
+        let mut l = if d.chance(13) {
+            steer_ignore_before(d, allow_bt)
+        } else if d.chance(3) {
+            steer_near_miss(d)
+        } else {
+            draw_layout_raw(d, allow_bt)
+        };
         // struct-level `ignore` is only grounded in the repository's tests for structs without field attributes
         if !is_enum && l.ignored && !l.fields.is_empty() && d.chance(60) {
             for f in l.fields.iter_mut() {
@@ -358,7 +465,7 @@ fn draw_layout(d: &mut Dice, allow_bt: bool, want_bt: bool, is_enum: bool, exclu
         }
         repair(&mut l);
         let m = model(&l);
-        if valid(&l, &m, allow_bt) && (!want_bt || has_backtrace(&l)) {
+        if valid(&l, &m, allow_bt) && (!want_bt || emits_provide(&l)) {
             return l;
         }
         *excluded += 1;
@@ -407,25 +514,69 @@ fn steer_ignore_before(d: &mut Dice, allow_bt: bool) -> Layout {
     Layout { named, fields, ignored: false }
 }
 
+/// Steered layouts: a two-field tuple of an error and a near-miss type (`Option<Backtrace>` ..): nothing is called
+/// `Backtrace`, so no backtrace and hence no source is inferred.
+fn steer_near_miss(d: &mut Dice) -> Layout {
+    let e = Fl { name: String::new(), attr: [At::None, At::NotBacktrace][d.weighted(&[5, 1])], cls: Cls::Err };
+    let nb = Fl { name: String::new(), attr: [At::None, At::NotSource, At::NotBacktrace][d.weighted(&[5, 1, 1])], cls: Cls::NearBt };
+    let fields = if d.chance(50) { vec![nb, e] } else { vec![e, nb] };
+    Layout { named: false, fields, ignored: false }
+}
+
 #[derive(Clone, Debug)]
 struct FieldTy {
     decl: String,
     val: String,
     /// the error is the boxed value, not the field itself
     boxed_dyn: bool,
+    /// a reference to the error: the error is the value referred to
+    by_ref: bool,
+    /// generic parameters (and requirements on them) the declared type mentions
+    gu: GenUse,
 }
 
-#[derive(Clone, Copy, Default)]
+impl FieldTy {
+    fn new(decl: impl Into<String>, val: impl Into<String>) -> FieldTy {
+        FieldTy { decl: decl.into(), val: val.into(), boxed_dyn: false, by_ref: false, gu: GenUse::default() }
+    }
+    fn with(mut self, f: impl FnOnce(&mut GenUse)) -> FieldTy {
+        f(&mut self.gu);
+        self
+    }
+}
+
+#[derive(Clone, Copy, Default, Debug)]
 struct GenUse {
     e: bool,
     p: bool,
     n: bool,
     a: bool,
+    /// `E` is used through its associated type: the declaration needs `E: Tr`
+    e_tr: bool,
+    /// `E` is used behind `&'static`: the declaration needs `E: 'static`
+    e_static: bool,
 }
 
-const BOX_DYN: [&str; 3] = ["Box<dyn StdError + Send + Sync>", "Box<dyn StdError + Send + 'static>", "Box<dyn StdError>"];
+impl GenUse {
+    fn or(&mut self, o: GenUse) {
+        self.e |= o.e;
+        self.p |= o.p;
+        self.n |= o.n;
+        self.a |= o.a;
+        self.e_tr |= o.e_tr;
+        self.e_static |= o.e_static;
+    }
+}
 
-fn field_ty(d: &mut Dice, l: &Layout, m: &Model, vi: usize, j: usize, generic: bool, gu: &mut GenUse) -> FieldTy {
+const BOX_DYN: [&str; 5] = [
+    "Box<dyn StdError + Send + Sync>",
+    "Box<dyn StdError + Send + 'static>",
+    "Box<dyn StdError>",
+    "Box<dyn StdError + Send + Sync + std::panic::UnwindSafe>",
+    "Box<dyn StdError + 'static>",
+];
+
+fn field_ty(d: &mut Dice, l: &Layout, m: &Model, vi: usize, j: usize, generic: bool) -> FieldTy {
     let x = &l.fields[j];
     let k = 1 + 4 * vi + j;
     let v = 100 + 10 * vi + j;
@@ -435,45 +586,59 @@ fn field_ty(d: &mut Dice, l: &Layout, m: &Model, vi: usize, j: usize, generic: b
     let no_provide = m.backtrace.is_none() && bt_candidates(l) == 0;
     match x.cls {
         Cls::Err => {
+            let g6 = if generic { 6 } else { 0 };
             let w = if selected {
-                [6, if no_provide { 3 } else { 0 }, 1, if generic { 6 } else { 0 }, 0]
+                [6, if no_provide { 3 } else { 0 }, 1, g6, 0, g6]
             } else {
-                [6, if no_provide { 1 } else { 0 }, 0, 0, if generic { 2 } else { 0 }]
+                [6, if no_provide { 1 } else { 0 }, 0, 0, if generic { 2 } else { 0 }, 0]
             };
             match d.weighted(&w) {
-                0 => FieldTy { decl: format!("Er<{k}>"), val: format!("Er({v})"), boxed_dyn: false },
+                0 => FieldTy::new(format!("Er<{k}>"), format!("Er({v})")),
                 1 => {
-                    let t = BOX_DYN[d.pick(3)];
-                    FieldTy { decl: t.to_string(), val: format!("Box::new(Er::<{}>({v}))", 60 + k), boxed_dyn: true }
+                    let t = BOX_DYN[d.weighted(&[3, 3, 3, 2, 2])];
+                    let mut f = FieldTy::new(t, format!("Box::new(Er::<{}>({v}))", 60 + k));
+                    f.boxed_dyn = true;
+                    f
                 }
-                2 => FieldTy { decl: format!("Box<Er<{k}>>"), val: format!("Box::new(Er({v}))"), boxed_dyn: false },
-                3 => {
-                    gu.e = true;
-                    FieldTy { decl: "E".into(), val: format!("Er({v})"), boxed_dyn: false }
-                }
-                _ => {
-                    gu.n = true;
-                    FieldTy { decl: "Er<N>".into(), val: format!("Er({v})"), boxed_dyn: false }
-                }
+                2 => FieldTy::new(format!("Box<Er<{k}>>"), format!("Box::new(Er({v}))")),
+                3 => FieldTy::new("E", format!("Er({v})")).with(|g| g.e = true),
+                4 => FieldTy::new("Er<N>", format!("Er({v})")).with(|g| g.n = true),
+                // the selected source *contains* the type parameter: the `Error` bound has to be put on the right type
+                _ => match d.pick(5) {
+                    0 => FieldTy::new("Box<E>", format!("Box::new(Er({v}))")).with(|g| g.e = true),
+                    1 => FieldTy::new("Wrap<E>", format!("Wrap(Er({v}), {v})")).with(|g| g.e = true),
+                    2 => FieldTy::new("E::Err", format!("Er({v})")).with(|g| {
+                        g.e = true;
+                        g.e_tr = true
+                    }),
+                    3 => FieldTy::new("<E as Tr>::Err", format!("Er({v})")).with(|g| {
+                        g.e = true;
+                        g.e_tr = true
+                    }),
+                    _ => {
+                        let mut f = FieldTy::new("&'static E", format!("&Er({v})")).with(|g| {
+                            g.e = true;
+                            g.e_static = true
+                        });
+                        f.by_ref = true;
+                        f
+                    }
+                },
             }
         }
-        Cls::Bt => FieldTy {
-            decl: if d.chance(30) { "std::backtrace::Backtrace".into() } else { "Backtrace".into() },
-            val: "Backtrace::disabled()".into(),
-            boxed_dyn: false,
+        Cls::Bt => FieldTy::new(if d.chance(30) { "std::backtrace::Backtrace" } else { "Backtrace" }, "Backtrace::disabled()"),
+        Cls::NearBt => match d.pick(4) {
+            0 => FieldTy::new("Option<Backtrace>", "Some(Backtrace::disabled())"),
+            1 => FieldTy::new("Box<Backtrace>", "Box::new(Backtrace::disabled())"),
+            2 => FieldTy::new("MyBacktrace", format!("MyBacktrace({v})")),
+            _ => FieldTy::new("Option<std::backtrace::Backtrace>", "None"),
         },
         Cls::Plain => match d.weighted(&[4, 2, 1, if generic { 4 } else { 0 }, if generic { 1 } else { 0 }]) {
-            0 => FieldTy { decl: "u64".into(), val: format!("{v}u64"), boxed_dyn: false },
-            1 => FieldTy { decl: "NotErr".into(), val: format!("NotErr({v})"), boxed_dyn: false },
-            2 => FieldTy { decl: "String".into(), val: format!("String::from(\"s{v}\")"), boxed_dyn: false },
-            3 => {
-                gu.p = true;
-                FieldTy { decl: "P".into(), val: format!("NotErr({v})"), boxed_dyn: false }
-            }
-            _ => {
-                gu.a = true;
-                FieldTy { decl: "&'a u64".into(), val: "&77u64".into(), boxed_dyn: false }
-            }
+            0 => FieldTy::new("u64", format!("{v}u64")),
+            1 => FieldTy::new("NotErr", format!("NotErr({v})")),
+            2 => FieldTy::new("String", format!("String::from(\"s{v}\")")),
+            3 => FieldTy::new("P", format!("NotErr({v})")).with(|g| g.p = true),
+            _ => FieldTy::new("&'a u64", "&77u64").with(|g| g.a = true),
         },
     }
 }
@@ -556,25 +721,64 @@ struct TypeDef {
     variants: Vec<Variant>,
 }
 
-/// (declaration generics, impl/type arguments, instantiation arguments)
-fn generics_text(gu: GenUse, order: usize) -> (String, String, String) {
+/// (declaration generics, impl/type arguments, instantiation arguments, where-clause of the declaration)
+type Gens = (String, String, String, String);
+
+/// `style`: 0 = requirements as inline bounds, no extras; 1 = inline plus an extra inline bound (`E: Send`, `P: Clone`);
+/// 2 = everything in a where-clause; 3 = required bounds inline, the extras in a where-clause
+fn generics_text(gu: GenUse, order: usize, style: usize) -> Gens {
     let mut decl = vec![];
     let mut args = vec![];
     let mut inst = vec![];
+    let mut wh: Vec<String> = vec![];
     if gu.a {
         decl.push("'a".to_string());
         args.push("'a".to_string());
         inst.push("'static".to_string());
     }
-    let mut rest: Vec<(&str, &str, &str)> = vec![];
+    let mut rest: Vec<(String, &str, &str)> = vec![];
+    let mut param = |name: &str, required: Vec<&str>, extra: &str, wh: &mut Vec<String>| -> String {
+        let mut inline: Vec<&str> = vec![];
+        let mut clause: Vec<&str> = vec![];
+        match style {
+            0 => inline.extend(required),
+            1 => {
+                inline.extend(required);
+                inline.push(extra);
+            }
+            2 => {
+                clause.extend(required);
+                clause.push(extra);
+            }
+            _ => {
+                inline.extend(required);
+                clause.push(extra);
+            }
+        }
+        if !clause.is_empty() {
+            wh.push(format!("{name}: {}", clause.join(" + ")));
+        }
+        if inline.is_empty() {
+            name.to_string()
+        } else {
+            format!("{name}: {}", inline.join(" + "))
+        }
+    };
     if gu.e {
-        rest.push(("E", "E", "Er<40>"));
+        let mut req = vec![];
+        if gu.e_tr {
+            req.push("Tr");
+        }
+        if gu.e_static {
+            req.push("'static");
+        }
+        rest.push((param("E", req, "Send", &mut wh), "E", "Er<40>"));
     }
     if gu.p {
-        rest.push(("P", "P", "NotErr"));
+        rest.push((param("P", vec![], "Clone", &mut wh), "P", "NotErr"));
     }
     if gu.n {
-        rest.push(("const N: usize", "N", "41"));
+        rest.push(("const N: usize".to_string(), "N", "41"));
     }
     // deterministic rotation / reversal of the declaration order (consts before types is legal)
     if !rest.is_empty() {
@@ -585,19 +789,20 @@ fn generics_text(gu: GenUse, order: usize) -> (String, String, String) {
         }
     }
     for (dcl, a, i) in rest {
-        decl.push(dcl.to_string());
+        decl.push(dcl);
         args.push(a.to_string());
         inst.push(i.to_string());
     }
     if decl.is_empty() {
-        (String::new(), String::new(), String::new())
+        (String::new(), String::new(), String::new(), String::new())
     } else {
-        (format!("<{}>", decl.join(", ")), format!("<{}>", args.join(", ")), format!("<{}>", inst.join(", ")))
+        let wh = if wh.is_empty() { String::new() } else { format!(" where {}", wh.join(", ")) };
+        (format!("<{}>", decl.join(", ")), format!("<{}>", args.join(", ")), format!("<{}>", inst.join(", ")), wh)
     }
 }
 
-fn render_type(t: &TypeDef, gens: &(String, String, String), with_derive: bool) -> String {
-    let (gd, ga, _) = gens;
+fn render_type(t: &TypeDef, gens: &Gens, with_derive: bool) -> String {
+    let (gd, ga, _, wh) = gens;
     let mut s = String::new();
     if with_derive {
         s.push_str("#[derive(Debug, derive_more::Error)]\n");
@@ -606,7 +811,7 @@ fn render_type(t: &TypeDef, gens: &(String, String, String), with_derive: bool) 
     }
     let name = &t.name;
     if t.is_enum {
-        s.push_str(&format!("pub enum {name}{gd} {{\n"));
+        s.push_str(&format!("pub enum {name}{gd}{wh} {{\n"));
         for v in &t.variants {
             if with_derive && v.layout.ignored {
                 s.push_str("    #[error(ignore)]\n");
@@ -620,11 +825,14 @@ fn render_type(t: &TypeDef, gens: &(String, String, String), with_derive: bool) 
             s.push_str("#[error(ignore)]\n");
         }
         let body = render_fields(v, with_derive);
-        let semi = if v.layout.named && !v.layout.fields.is_empty() || body == " {}" { "" } else { ";" };
-        s.push_str(&format!("pub struct {name}{gd}{body}{semi}\n"));
+        if v.layout.named && !v.layout.fields.is_empty() || body == " {}" {
+            s.push_str(&format!("pub struct {name}{gd}{wh}{body}\n"));
+        } else {
+            s.push_str(&format!("pub struct {name}{gd}{body}{wh};\n"));
+        }
     }
     s.push_str(&format!(
-        "impl{gd} std::fmt::Display for {name}{ga} {{ fn fmt(&self, f: &mut std::fmt::Formatter<'_>) -> std::fmt::Result {{ f.write_str(\"{name}\") }} }}\n"
+        "impl{gd} std::fmt::Display for {name}{ga}{wh} {{ fn fmt(&self, f: &mut std::fmt::Formatter<'_>) -> std::fmt::Result {{ f.write_str(\"{name}\") }} }}\n"
     ));
     s
 }
@@ -640,6 +848,9 @@ fn render_probe(t: &TypeDef, v: &Variant, inst: &str, tag: &str) -> String {
         .map(|(j, ty)| {
             if ty.boxed_dyn {
                 format!("(\"field {j}\", ad(&**f{j})), (\"the Box of field {j} instead of the error it holds\", ad(f{j}))")
+            } else if ty.by_ref {
+                // a reference to an error: the error is the value referred to (the reference itself is accepted too)
+                format!("(\"field {j}\", ad(*f{j})), (\"field {j}\", ad(f{j}))")
             } else if ty.decl.starts_with("Box<") {
                 format!("(\"field {j}\", ad(f{j})), (\"the value inside the Box of field {j}\", ad(&**f{j}))")
             } else {
@@ -666,6 +877,17 @@ impl<const K: usize> StdError for Er<K> {}
 /// implements Debug only: instantiates parameters that must not receive an `Error` bound
 #[derive(Debug, Clone)]
 pub struct NotErr(pub u64);
+/// an error type generic over another one (non-zero-sized; the inner value is not at a distinguished place)
+#[derive(Debug)]
+pub struct Wrap<T>(pub T, pub u64);
+impl<T> std::fmt::Display for Wrap<T> { fn fmt(&self, f: &mut std::fmt::Formatter<'_>) -> std::fmt::Result { write!(f, "Wrap({})", self.1) } }
+impl<T: std::fmt::Debug> StdError for Wrap<T> {}
+/// a trait whose associated type is the error
+pub trait Tr { type Err: std::fmt::Debug; }
+impl<const K: usize> Tr for Er<K> { type Err = Er<K>; }
+/// resembles, but is not called, `Backtrace`
+#[derive(Debug)]
+pub struct MyBacktrace(pub u64);
 pub fn dp(e: Option<&(dyn StdError + 'static)>) -> Option<usize> { e.map(|r| r as *const dyn StdError as *const () as usize) }
 pub fn ad<T: ?Sized>(r: &T) -> usize { r as *const T as *const () as usize }
 pub fn which(got: Option<usize>, addrs: &[(&str, usize)]) -> String {
@@ -698,6 +920,22 @@ fn layout_labels(l: &Layout, m: &Model, is_enum: bool, labels: &mut Vec<String>)
         if f.cls == Cls::Bt {
             push("type=Backtrace".into());
         }
+        if f.cls == Cls::NearBt {
+            push("type=near_miss_Backtrace".into());
+        }
+        if f.attr.is_combo() {
+            push("attr_combo".into());
+            if f.attr != At::BtSource {
+                push("attr_combo_new".into());
+            }
+        }
+    }
+    if bt_by_type_only(l) {
+        push("named_backtrace_by_type_only".into());
+    }
+    if !l.named && l.fields.len() == 2 && m.backtrace.is_none() && l.fields.iter().any(|x| x.cls == Cls::NearBt) && l.fields.iter().any(|x| x.cls == Cls::Err && !x.attr.no_src() && x.attr.src().is_none()) {
+        // (error, Option<Backtrace>): loosening the "called `Backtrace`" test would infer a source here
+        push("two_tuple_near_miss_no_inference".into());
     }
     if l.ignored {
         push(if is_enum { "variant_ignored".into() } else { "struct_ignored".into() });
@@ -706,9 +944,9 @@ fn layout_labels(l: &Layout, m: &Model, is_enum: bool, labels: &mut Vec<String>)
         Sel::Field(i) => {
             push("expect=some".into());
             let f = &l.fields[i];
-            if matches!(f.attr, At::Source | At::BtSource) {
+            if f.attr.src() == Some(true) {
                 push("selected_by=attribute".into());
-                if l.fields.iter().any(|x| x.name == "source" && x.attr != At::Source && x.attr != At::BtSource) {
+                if l.fields.iter().any(|x| x.name == "source" && x.attr.src() != Some(true)) {
                     push("explicit_overrides_name".into());
                 }
             } else if l.named {
@@ -733,8 +971,8 @@ fn layout_labels(l: &Layout, m: &Model, is_enum: bool, labels: &mut Vec<String>)
         }
         Sel::NoSource => {
             push("expect=none".into());
-            if l.fields.iter().any(|x| x.name == "source" && matches!(x.attr, At::NotSource | At::Ignore))
-                || (!l.named && l.fields.len() == 1 && matches!(l.fields[0].attr, At::NotSource | At::Ignore))
+            if l.fields.iter().any(|x| x.name == "source" && x.attr.no_src())
+                || (!l.named && l.fields.len() == 1 && l.fields[0].attr.no_src())
                 || (!l.named && l.fields.len() == 2 && m.backtrace.is_some())
             {
                 push("candidate_disqualified".into());
@@ -745,6 +983,9 @@ fn layout_labels(l: &Layout, m: &Model, is_enum: bool, labels: &mut Vec<String>)
     }
     if m.backtrace.is_some() {
         push("has_backtrace".into());
+    }
+    if emits_provide(l) {
+        push("provide_emitted".into());
     }
 }
 
@@ -762,11 +1003,15 @@ fn build_with(d: &mut Dice, nightly: bool) -> GenCase {
     for vi in 0..nv {
         let layout = draw_layout(d, allow_bt, vi == bt_slot, is_enum, &mut excluded);
         let m = model(&layout);
-        let tys: Vec<FieldTy> = (0..layout.fields.len()).map(|j| field_ty(d, &layout, &m, vi, j, generic, &mut gu)).collect();
+        let tys: Vec<FieldTy> = (0..layout.fields.len()).map(|j| field_ty(d, &layout, &m, vi, j, generic)).collect();
+        for t in &tys {
+            gu.or(t.gu);
+        }
         variants.push(Variant { name: vnames[vi].to_string(), layout, tys, unit_form: d.pick(3) });
     }
     let order = d.pick(6);
-    let gens = generics_text(gu, order);
+    let gstyle = d.weighted(&[5, 2, 2, 2]);
+    let gens = generics_text(gu, order, gstyle);
     let mut labels: Vec<String> = vec![if is_enum { "kind=enum".into() } else { "kind=struct".into() }];
     if nightly {
         labels.push("nightly_shard".into());
@@ -785,9 +1030,31 @@ fn build_with(d: &mut Dice, nightly: bool) -> GenCase {
         if gu.a {
             labels.push("lifetime_generic".into());
         }
+        if variants.iter().any(|v| v.tys.iter().any(|t| matches!(t.decl.as_str(), "Box<E>" | "Wrap<E>" | "E::Err" | "<E as Tr>::Err" | "&'static E"))) {
+            labels.push("generic_source_type_composite".into());
+        }
+        for v in &variants {
+            for t in &v.tys {
+                match t.decl.as_str() {
+                    "&'static E" => labels.push("generic_source_behind_reference".into()),
+                    "E::Err" | "<E as Tr>::Err" => labels.push("generic_source_assoc_type".into()),
+                    "Box<E>" | "Wrap<E>" => labels.push("generic_source_in_path_args".into()),
+                    _ => {}
+                }
+            }
+        }
+        if !gens.3.is_empty() {
+            labels.push("generic_where_clause".into());
+        }
+        if gens.0.contains("E: ") || gens.0.contains("P: ") {
+            labels.push("generic_inline_bound".into());
+        }
     }
     if variants.iter().any(|v| v.tys.iter().any(|t| t.boxed_dyn)) {
         labels.push("boxed_dyn_error".into());
+        if variants.iter().any(|v| v.tys.iter().any(|t| t.boxed_dyn && (t.decl.contains("UnwindSafe") || t.decl == "Box<dyn StdError + 'static>"))) {
+            labels.push("boxed_dyn_unwindsafe_or_static".into());
+        }
     }
 
     if negative {
@@ -799,7 +1066,7 @@ fn build_with(d: &mut Dice, nightly: bool) -> GenCase {
             let j = v.layout.fields.len();
             let name = if v.layout.named { OTHER[j].to_string() } else { String::new() };
             v.layout.fields.push(Fl { name, attr: At::None, cls: Cls::Err });
-            v.tys.push(FieldTy { decl: format!("Er<{}>", 20 + j), val: String::new(), boxed_dyn: false });
+            v.tys.push(FieldTy::new(format!("Er<{}>", 20 + j), ""));
         }
         let n = v.layout.fields.len();
         let a = d.pick(n);
@@ -811,13 +1078,13 @@ fn build_with(d: &mut Dice, nightly: bool) -> GenCase {
             v.layout.fields[j].attr = At::Source;
             v.layout.fields[j].cls = Cls::Err;
             if v.tys[j].decl.contains("Backtrace") || ["u64", "NotErr", "String", "P", "&'a u64"].contains(&v.tys[j].decl.as_str()) {
-                v.tys[j].decl = format!("Er<{}>", 30 + j);
+                v.tys[j] = FieldTy::new(format!("Er<{}>", 30 + j), "");
             }
         }
         // other explicit sources stay: still ambiguous; a stray backtrace attribute on a non-backtrace type would be
         // rejected by rustc for another reason: neutralise
         for (j, f) in v.layout.fields.iter_mut().enumerate() {
-            if j != a && j != b && matches!(f.attr, At::Backtrace | At::BtSource) {
+            if j != a && j != b && f.attr.bt() == Some(true) {
                 f.attr = At::None;
             }
         }
@@ -828,18 +1095,12 @@ fn build_with(d: &mut Dice, nightly: bool) -> GenCase {
         let mut gu2 = GenUse::default();
         for v in &t.variants {
             for ty in &v.tys {
-                match ty.decl.as_str() {
-                    "E" => gu2.e = true,
-                    "P" => gu2.p = true,
-                    "Er<N>" => gu2.n = true,
-                    "&'a u64" => gu2.a = true,
-                    _ => {}
-                }
+                gu2.or(ty.gu);
             }
         }
-        let gens = generics_text(gu2, order);
+        let gens = generics_text(gu2, order, gstyle);
         let body = render_type(&t, &gens, true);
-        let item = render_item_only(&iso, &(String::new(), String::new(), String::new()));
+        let item = render_item_only(&iso, &Gens::default());
         let mut c = GenCase::new(body);
         c.expect_compile = false;
         c.runnable = false;
@@ -874,6 +1135,10 @@ fn build_with(d: &mut Dice, nightly: bool) -> GenCase {
                     continue;
                 }
                 if model(&v.layout).source == Sel::Unspecified {
+                    continue;
+                }
+                // the field types were chosen for the layout as drawn (boxed trait objects only without `provide()`)
+                if emits_provide(&l2) != emits_provide(&v.layout) || bt_candidates(&l2) != bt_candidates(&v.layout) {
                     continue;
                 }
                 cands.push((vi, j));
@@ -981,7 +1246,7 @@ fn build_with(d: &mut Dice, nightly: bool) -> GenCase {
 }
 
 /// The bare item (attributes kept, std derive dropped) for the in-process confirmation of negative cases.
-fn render_item_only(t: &TypeDef, gens: &(String, String, String)) -> String {
+fn render_item_only(t: &TypeDef, gens: &Gens) -> String {
     let full = render_type(t, gens, true);
     let item: Vec<&str> = full.lines().filter(|l| !l.starts_with("#[derive(") && !l.starts_with("impl")).collect();
     item.join("\n")
@@ -1130,7 +1395,7 @@ fn classify(c: &GenCase, r: &CaseResult, f: &Finding) -> Option<String> {
 // ------------------------------------------------------------------------------------------------
 // properties
 
-const RULE: &str = "structs and enums (1..3 variants) whose variants/bodies are field layouts: 0..3 named or positional fields x attribute in {none, source, not(source), backtrace, not(backtrace), ignore, (backtrace, source)} x name in {source, backtrace, other} x type in {distinct error types Er<K>, Box<dyn Error (+Send(+Sync))>, Box<Er<K>>, type parameter, const-generic Er<N>, Backtrace, non-error types incl. a type parameter instantiated with a non-Error type}, variant-/struct-level ignore, generic (type, const, lifetime parameters in varying order) and concrete; oracle: three-valued model (Some(i)/None/unspecified) of impl/doc/error.md and the statement vs. the data pointer of source()'s &dyn Error compared with the address of every field (boxed dyn: the boxed value); metamorphic twin without one non-candidate `ignore`; negative cases with two explicit sources must not compile; non-trivial = a layout with >= 2 fields and >= 1 attribute; distinct by program text";
+const RULE: &str = "structs and enums (1..3 variants) whose variants/bodies are field layouts: 0..3 named or positional fields x attribute in {none, source, not(source), backtrace, not(backtrace), ignore, (backtrace, source), (source, backtrace), (source, not(backtrace)), (not(source), backtrace), (not(source), not(backtrace)), not(source, backtrace)} x name in {source, backtrace, other} x type in {distinct error types Er<K>, Box<dyn Error (+Send(+Sync(+UnwindSafe)) | +'static)>, Box<Er<K>>, type parameter E and types containing it (Box<E>, Wrap<E>, E::Err, <E as Tr>::Err, &'static E), const-generic Er<N>, Backtrace, near-miss types that are not called Backtrace (Option<Backtrace>, Box<Backtrace>, MyBacktrace), non-error types incl. a type parameter instantiated with a non-Error type}, variant-/struct-level ignore, generic (type, const, lifetime parameters in varying order, with inline bounds and/or a where-clause) and concrete; named layouts with a Backtrace-typed field under another name (nightly shard, source judged only); oracle: three-valued model (Some(i)/None/unspecified) of impl/doc/error.md and the statement vs. the data pointer of source()'s &dyn Error compared with the address of every field (boxed dyn: the boxed value); metamorphic twin without one non-candidate `ignore`; negative cases with two explicit sources must not compile; non-trivial = a layout with >= 2 fields and >= 1 attribute; distinct by program text";
 
 fn assumptions() -> Vec<String> {
     vec![
@@ -1167,6 +1432,13 @@ pub fn prop() -> DiceProp {
             ("explicit_overrides_name".into(), 0.005),
             ("variant_ignored".into(), 0.02),
             ("generic_source_type".into(), 0.05),
+            ("generic_source_type_composite".into(), 0.03),
+            ("generic_source_behind_reference".into(), 0.005),
+            ("generic_where_clause".into(), 0.02),
+            ("attr_combo_new".into(), 0.08),
+            ("type=near_miss_Backtrace".into(), 0.04),
+            ("two_tuple_near_miss_no_inference".into(), 0.01),
+            ("boxed_dyn_unwindsafe_or_static".into(), 0.02),
             ("boxed_dyn_error".into(), 0.05),
             ("metamorphic_ignore_pair".into(), 0.08),
             ("negative_two_explicit_sources".into(), 0.03),
@@ -1192,7 +1464,10 @@ pub fn prop_nightly() -> DiceProp {
         rule: RULE.into(),
         assumptions: assumptions(),
         floors: vec![
-            ("has_backtrace".into(), 0.9),
+            ("has_backtrace".into(), 0.8),
+            ("provide_emitted".into(), 0.9),
+            ("named_backtrace_by_type_only".into(), 0.03),
+            ("attr_combo_new".into(), 0.1),
             ("selected_by=two_tuple_other_is_backtrace".into(), 0.04),
             ("backtrace_from_source".into(), 0.03),
             ("enum_ignored_before_selected".into(), 0.03),
@@ -1287,7 +1562,10 @@ fn sweep(rep: &mut Report) {
     let mut ambiguous = 0u64;
     let mut skipped_bt = 0u64;
     let mut seen_sigs = std::collections::HashSet::new();
-    let per_field: Vec<(At, Cls)> = ALL_ATTRS.iter().flat_map(|a| [Cls::Err, Cls::Bt].into_iter().map(move |c| (*a, c))).collect();
+    // every attribute (incl. the multi-parameter lists) for up to two fields, the single-parameter ones and the
+    // documented `backtrace, source` for three
+    let per_field_all: Vec<(At, Cls)> = ALL_ATTRS.iter().flat_map(|a| [Cls::Err, Cls::Bt].into_iter().map(move |c| (*a, c))).collect();
+    let per_field_base: Vec<(At, Cls)> = BASE_ATTRS.iter().flat_map(|a| [Cls::Err, Cls::Bt].into_iter().map(move |c| (*a, c))).collect();
     let name_opts = ["source", "backtrace", ""];
     for named in [false, true] {
         for n in 0..=3usize {
@@ -1313,6 +1591,7 @@ fn sweep(rep: &mut Report) {
                 }
                 name_seqs = next;
             }
+            let per_field = if n <= 2 { &per_field_all } else { &per_field_base };
             let combos = per_field.len().pow(n as u32);
             for names in &name_seqs {
                 for code in 0..combos {
@@ -1361,7 +1640,7 @@ fn sweep(rep: &mut Report) {
     rep.evidence.label_n("inproc_sweep_backtrace_ambiguous_not_judged", skipped_bt);
     rep.evidence.set(
         "inproc_sweep",
-        json!({"layouts": total, "exhaustive": true, "space": "named/positional x 0..3 fields x 7 attributes x {error type, Backtrace type} x names {source, backtrace, other} x struct/enum variant (+ a 1/7 sample with container-level ignore)", "decides": "derive-level accept/reject only (two explicit sources => diagnostic; everything else expands without error or panic)"}),
+        json!({"layouts": total, "exhaustive": true, "space": "named/positional x 0..3 fields x 12 attributes (for three fields: the 7 single-parameter ones and `backtrace, source`) x {error type, Backtrace type} x names {source, backtrace, other} x struct/enum variant (+ a 1/7 sample with container-level ignore)", "decides": "derive-level accept/reject only (two explicit sources => diagnostic; everything else expands without error or panic)"}),
     );
 }
 
@@ -1472,6 +1751,11 @@ fn layout_of_item(src: &str) -> Option<Layout> {
                     "error(not(backtrace))" => At::NotBacktrace,
                     "error(ignore)" => At::Ignore,
                     "error(backtrace,source)" => At::BtSource,
+                    "error(source,backtrace)" => At::SourceBt,
+                    "error(source,not(backtrace))" => At::SourceNotBt,
+                    "error(not(source),backtrace)" => At::NotSourceBt,
+                    "error(not(source),not(backtrace))" => At::NotSourceNotBt,
+                    "error(not(source,backtrace))" => At::NotBoth,
                     _ => return None,
                 };
             }
